@@ -418,10 +418,67 @@ func C17(ctx *core.Ctx) {
 					}
 					ctx.Check(all, "C17.R5", construct, r.IPos(al), "initialised from "+c.ShortName()+"(), every implementation of which returns a freshly made copy",
 						"initialised from "+c.ShortName()+"(), which does not return a fresh copy: clone and original share the map")
+					for _, t := range targets {
+						if src := rangedField(t); src != "" && src != mf {
+							ctx.Violate("C17.R5", construct+" (content)", r.IPos(al), "the clone's "+mf+" is initialised from "+c.ShortName()+"(), which copies the source's "+src+": the clone does not start with headers equal to the original's")
+						}
+					}
 					continue
 				}
 				ctx.Violate("C17.R5", construct, r.IPos(al), "initialised from "+init.String()+" — not a copy: later changes on either side are visible to the other")
 			}
+		})
+	}
+	// equal content: what a cloner copies into a map field of the clone comes from
+	// the same-named field of the source (a loop that fills cloned.requestHeaders
+	// from c.responseHeaders gives the clone foreign request headers and no
+	// response headers)
+	for _, fn := range cloners {
+		n := 0
+		ssax.Instrs(fn, func(in ssa.Instruction) {
+			mu, ok := in.(*ssa.MapUpdate)
+			if !ok {
+				return
+			}
+			ld, isLd := ssax.Strip(mu.Map).(*ssa.UnOp)
+			if !isLd || ld.Op != token.MUL {
+				return
+			}
+			dstField := fieldNameOfAddr(ld.X)
+			isMapField := false
+			for _, mf := range mapFields {
+				if mf == dstField {
+					isMapField = true
+				}
+			}
+			if !isMapField {
+				return
+			}
+			// key and value of a range over a field of the source
+			ke, ok1 := ssax.Strip(mu.Key).(*ssa.Extract)
+			ve, ok2 := ssax.Strip(mu.Value).(*ssa.Extract)
+			if !ok1 || !ok2 || ke.Tuple != ve.Tuple {
+				return
+			}
+			nx, isN := ke.Tuple.(*ssa.Next)
+			if !isN {
+				return
+			}
+			rg, isR := nx.Iter.(*ssa.Range)
+			if !isR {
+				return
+			}
+			srcLd, isSrc := ssax.Strip(rg.X).(*ssa.UnOp)
+			if !isSrc || srcLd.Op != token.MUL {
+				return
+			}
+			srcField := fieldNameOfAddr(srcLd.X)
+			if srcField == "" {
+				return
+			}
+			n++
+			ctx.Check(srcField == dstField, "C17.R5", ssax.Name(fn)+sprintf(" › copy loop #%d fills %s of the clone from the same field of the source", n, dstField), r.IPos(in), "range over "+srcField+" → "+dstField,
+				"the clone's "+dstField+" is filled from the source's "+srcField+": the clone does not start with headers equal to the original's (entries of one map turn up in the other, and "+srcField+" of the clone stays empty)")
 		})
 	}
 	// copying accessors really copy: a returned fresh map is filled from the guarded field under the lock
@@ -775,4 +832,27 @@ func opIDGenerator(r *RT) (*ssa.Function, int) {
 		return cands[0], 1
 	}
 	return nil, len(cands)
+}
+
+// rangedField: the one map field of its receiver that fn ranges over ("" if
+// none or several).
+func rangedField(fn *ssa.Function) string {
+	out := ""
+	n := 0
+	ssax.Instrs(fn, func(in ssa.Instruction) {
+		rg, ok := in.(*ssa.Range)
+		if !ok {
+			return
+		}
+		if ld, isLd := ssax.Strip(rg.X).(*ssa.UnOp); isLd && ld.Op == token.MUL {
+			if f := fieldNameOfAddr(ld.X); f != "" {
+				out = f
+				n++
+			}
+		}
+	})
+	if n != 1 {
+		return ""
+	}
+	return out
 }
